@@ -420,11 +420,9 @@ Lemma rep_inv l : Rep l -> Inv l.
 Proof.
   intros [R1 R2 R3 R4]. unfold Inv, held_entries, held_strings, v_entries, v_entries_dict, v_strings_dict, v_strings,
     v_preambles, v_comments, v_failed, v_blocks.
-  assert (PS : Permutation (map snd (strs l)) (filter is_string_ob (blocks l))).
-  { rewrite <- (keyed_values (filter is_string_ob (blocks l))). apply Permutation_map. assumption. }
   split; [reflexivity|]. split; [apply maps_exactly_keyed; assumption|]. split; [apply maps_exactly_keyed; assumption|].
-  split; [assumption|]. split; [assumption|]. split; [assumption|]. split; [|auto].
-  eapply Permutation_trans; [|apply partition5]. apply Permutation_app_head. apply Permutation_app_tail. assumption.
+  split; [assumption|]. split; [assumption|]. split; [reflexivity|]. split; [|auto].
+  apply partition5.
 Qed.
 
 Lemma inv_reachable l : reachable l -> Inv l.
@@ -513,8 +511,42 @@ Lemma forall2_ob_eq_refl bl : Forall2 ob_eq bl bl.
 Proof. induction bl; constructor; auto. left; reflexivity. Qed.
 Lemma dict_equal_refl d : dict_equal d d.
 Proof. intros k. destruct (dict_get d k); auto. left; reflexivity. Qed.
-Lemma lib_equal_refl l : lib_equal l l.
+(* equality of the state: the block list and the two indexes; all eight views follow (core_lib_equal) *)
+Definition core_equal (before after : lib) : Prop :=
+  Forall2 ob_eq (blocks before) (blocks after)
+  /\ dict_equal (ents before) (ents after) /\ dict_equal (strs before) (strs after).
+Lemma core_equal_refl l : core_equal l l.
 Proof. split; [apply forall2_ob_eq_refl | split; apply dict_equal_refl]. Qed.
+
+(* == respects the five class tests, so the filtered views of equal block lists are equal *)
+Lemma ob_eq_classes a b : ob_eq a b ->
+  is_entry_ob a = is_entry_ob b /\ is_string_ob a = is_string_ob b /\ is_preamble_ob a = is_preamble_ob b
+  /\ is_comment_ob a = is_comment_ob b /\ is_failed_ob a = is_failed_ob b.
+Proof.
+  intros [E|E]; [subst; repeat split|].
+  destruct a as [i x|i h k p d], b as [j y|j h' k' p' d']; simpl in E; try discriminate E; [|repeat split].
+  destruct (is_failed_class x && is_failed_class y) eqn:F.
+  - apply andb_true_iff in F as [F1 F2].
+    destruct x; try discriminate F1; destruct y; try discriminate F2; simpl; repeat split.
+  - destruct x, y; simpl in E, F; try discriminate E; try discriminate F; simpl; repeat split.
+Qed.
+
+Lemma filter_equal (p : oblock -> bool) bl bl' :
+  (forall a b, ob_eq a b -> p a = p b) -> Forall2 ob_eq bl bl' -> Forall2 ob_eq (filter p bl) (filter p bl').
+Proof.
+  intros Hp H. induction H as [|x y l l' Hxy H IH]; simpl; [constructor|].
+  rewrite (Hp x y Hxy). destruct (p y); [constructor|]; assumption.
+Qed.
+
+Lemma core_lib_equal a b : core_equal a b -> lib_equal a b.
+Proof.
+  intros (HB & HE & HS). unfold lib_equal, list_equal, v_blocks, v_entries, v_entries_dict, v_strings, v_strings_dict,
+    v_preambles, v_comments, v_failed.
+  split; [assumption|]. split; [apply filter_equal; [intros x y H; apply ob_eq_classes in H; tauto | assumption]|].
+  split; [assumption|]. split; [apply filter_equal; [intros x y H; apply ob_eq_classes in H; tauto | assumption]|].
+  split; [assumption|].
+  repeat split; (apply filter_equal; [intros x y H; apply ob_eq_classes in H; tauto | assumption]).
+Qed.
 
 (* the dict after the rollback: the key of the removed block now maps to the caller's block, which is == to it *)
 Lemma dict_equal_readd d k y old : NoDup (map fst d) -> dict_get d k = Some y -> ob_py_eq y old = true ->
@@ -555,10 +587,10 @@ Proof.
 Qed.
 
 Lemma replace_atomic l old new f : Rep l -> Fresh l ->
-  snd (replace l old new f) = Raised EValue -> lib_equal l (fst (replace l old new f)).
+  snd (replace l old new f) = Raised EValue -> core_equal l (fst (replace l old new f)).
 Proof.
   intros R Fr. unfold replace. pose proof (replace_core_spec l old new R) as S.
-  destruct (list_index old (blocks l)) as [idx|]; [|rewrite S; intros _; apply lib_equal_refl].
+  destruct (list_index old (blocks l)) as [idx|]; [|rewrite S; intros _; apply core_equal_refl].
   destruct S as (pre & y & post & l1 & l2 & b' & Hbl & Hy & Hpre & R1 & N1 & B1 & He & Hs & E2 & B2 & Hc & E & R3 & _).
   rewrite E. destruct (negb (oid_of new =? oid_of b')%N && is_dup_ob b' && f) eqn:C; [|simpl; discriminate].
   apply andb_true_iff in C as [C Cf]. apply andb_true_iff in C as [Co Cd].
@@ -602,14 +634,22 @@ Qed.
 
 Lemma raise_atomic l o : reachable l -> ~ known_K1 o -> snd (apply l o) = Raised EValue -> lib_equal l (fst (apply l o)).
 Proof.
-  intros Hr HK. assert (R := reachable_rep l Hr). assert (Fr := reachable_fresh l Hr).
+  intros Hr HK. assert (R := reachable_rep l Hr). assert (Fr := reachable_fresh l Hr). intros H. apply core_lib_equal. revert H.
   destruct o as [bs f|bs|old new f]; simpl.
   - destruct f; [exfalso; apply HK; exists bs; reflexivity|].
     destruct (add_rep l bs false R) as (l' & o & E & _ & _ & Hd & _). rewrite E. simpl. rewrite (Hd eq_refl). discriminate.
   - destruct (remove_rep l bs R) as (l' & o & E & _ & _ & [[Ho _]|[_ El]]); rewrite E; simpl.
     + subst o. discriminate.
-    + subst l'. intros _. apply lib_equal_refl.
+    + subst l'. intros _. apply core_equal_refl.
   - apply replace_atomic; assumption.
+Qed.
+
+(* strings: always the String blocks in block order, and a raising call (other than K1) keeps that order *)
+Lemma strings_order l : reachable l ->
+  v_strings l = filter is_string_ob (blocks l)
+  /\ forall o, ~ known_K1 o -> snd (apply l o) = Raised EValue -> list_equal (v_strings l) (v_strings (fst (apply l o))).
+Proof.
+  intros Hr. split; [reflexivity|]. intros o HK H. destruct (raise_atomic l o Hr HK H) as (_ & _ & _ & HS & _). exact HS.
 Qed.
 
 Lemma order l : reachable l ->
@@ -643,7 +683,7 @@ Proof. apply reach_step; [apply reach_empty|]. simpl. repeat constructor. Qed.
 Lemma atomic_refuted : exists l o, reachable l /\ op_wf l o /\ snd (apply l o) = Raised EValue /\ ~ lib_equal l (fst (apply l o)).
 Proof.
   exists w_lib1, w_op1. split; [apply w_lib1_reachable|]. split; [simpl; repeat constructor|].
-  split; [vm_compute; reflexivity|]. intros [H _]. apply forall2_len in H. vm_compute in H. discriminate.
+  split; [vm_compute; reflexivity|]. intros [H _]. unfold list_equal in H. apply forall2_len in H. vm_compute in H. discriminate.
 Qed.
 
 Definition w_s0 : oblock := OB 0 (BString hdr0 (lit "a"%string) (VStr (lit "1"%string))).
@@ -652,16 +692,16 @@ Definition w_s2 : oblock := OB 2 (BString hdr0 (lit "b"%string) (VStr (lit "3"%s
 Definition w_lib2 : lib := fst (apply (empty_lib 1000) (LAdd [w_s0; w_s1] false)).
 Definition w_op2 : lop := LReplace w_s0 w_s2 true.
 
-(* a raising replace re-inserts the old string at the END of the string index: the `strings` view comes back
-   in another order although blocks, strings_dict (as a mapping) and everything else are as before *)
-Lemma strings_order_refuted : exists l o, reachable l /\ op_wf l o /\ ~ known_K1 o /\ snd (apply l o) = Raised EValue
-  /\ ~ Forall2 ob_eq (v_strings l) (v_strings (fst (apply l o))).
+(* the former finding (fixed in /repo by c532558): a raising replace re-inserts the old string at the END of the
+   string index; `strings` now follows the block list, so it comes back in the same order *)
+Lemma example_strings_order :
+  reachable w_lib2 /\ ~ known_K1 w_op2 /\ snd (apply w_lib2 w_op2) = Raised EValue
+  /\ map fst (v_strings_dict (fst (apply w_lib2 w_op2))) = [lit "b"%string; lit "a"%string]
+  /\ map oid_of (v_strings w_lib2) = [0; 1]%N /\ map oid_of (v_strings (fst (apply w_lib2 w_op2))) = [0; 1]%N.
 Proof.
-  exists w_lib2, w_op2. split; [|split; [simpl; repeat constructor|split; [|split]]].
+  split; [|split; [|split; [|split; [|split]]]]; try (vm_compute; reflexivity).
   - apply reach_step; [apply reach_empty|]. simpl. repeat constructor.
   - intros [bs E]. discriminate E.
-  - vm_compute. reflexivity.
-  - intros H. vm_compute in H. inversion H as [|a b la lb H1 H2]; subst. destruct H1 as [E|E]; discriminate E.
 Qed.
 
 (* non-vacuity of the atomicity theorem: a reachable library holding duplicates in which a raising replace of a
